@@ -255,11 +255,12 @@ func forwardsTo(v ssa.Value, name string) bool {
 }
 
 // c02EqualFuncForm: chainsEquivalent hands the element-wise comparison to the standard library:
-// every result is the constant false or slices.EqualFunc(p0, p1[:…], (*x509.Certificate).Equal).
+// every result is the constant false or slices.EqualFunc(s1, s2, (*x509.Certificate).Equal).
 // slices.EqualFunc(s1, s2, eq) is true iff len(s1) = len(s2) and eq(s1[i], s2[i]) for every i; with
-// s1 the whole submitted chain and s2 a prefix of the verified chain that starts at its element 0,
-// s2[i] is p1[i], so a true result means every submitted certificate equals the verified one at
-// its position — the facts the loop form establishes piecewise.  Reports whether this form applies.
+// s1 the whole submitted chain (p0, or p0[:n] where n = len(p0) on every path to the call) and s2 a
+// part of the verified chain that starts at its element 0, s2[i] is p1[i], so a true result means every
+// submitted certificate equals the verified one at its position — the facts the loop form establishes
+// piecewise (c02EqualFuncFacts).  Reports whether this form applies.
 func c02EqualFuncForm(r *Run, fn *ssa.Function) bool {
 	var calls []*ssa.Call
 	eachInstr(fn, func(in ssa.Instruction) {
@@ -270,19 +271,7 @@ func c02EqualFuncForm(r *Run, fn *ssa.Function) bool {
 	if len(calls) != 1 || len(calls[0].Call.Args) != 3 || len(fn.Params) != 2 {
 		return false
 	}
-	c := calls[0]
-	s1, s2, eq := c.Call.Args[0], c.Call.Args[1], c.Call.Args[2]
-	r.Check("chainsEquivalent:all-submitted-certs", s1 == ssa.Value(fn.Params[0]), r.Where(c), "slices.EqualFunc compares every element of "+r.D.D(s1)+" (the whole submitted chain)")
-	prefix := s2 == ssa.Value(fn.Params[1])
-	if sl, ok := s2.(*ssa.Slice); ok && sl.X == ssa.Value(fn.Params[1]) && (sl.Low == nil || isConstInt(sl.Low, 0)) {
-		prefix = true
-	}
-	r.Check("chainsEquivalent:same-position", prefix, r.Where(c), "… with the element at the same position of "+r.D.D(s2)+" (the verified chain from its element 0)")
-	r.Check("chainsEquivalent:certificates-differ", forwardsTo(eq, "(*x509.Certificate).Equal"), r.Where(c), "elements are compared by "+r.D.D(eq)+" = (*x509.Certificate).Equal; one differing pair makes the result false")
-	for _, ret := range Returns(fn) {
-		v := ret.Results[0]
-		r.Check("chainsEquivalent:true-only-after-loop", v == ssa.Value(c) || r.D.D(v) == "false", r.Where(ret), "returns "+clipStr(r.D.D(v), 100)+" (false, or the verdict of the element-wise comparison)")
-	}
+	c02EqualFuncFacts(r, fn, calls[0]) // rules_t6c02.go
 	return true
 }
 
